@@ -278,6 +278,16 @@ def judge(case):
                             fails.append(Failure("C02.values", f"decoded-differs/{kind}", f"{nm}: {dn!r} vs {want!r}"))
                     except Exception as e:  # noqa: BLE001
                         fails.append(Failure("C02.values", f"decoded-raises/{nm}/" + exc_signature(e), repr(e)[:200]))
+                if kind in ("geo", "cats", "text", "uri", "caladdr", "recur", "offset", "dates", "dates-date", "periods", "float", "bool") and len(vals) == 1 and j == 0:
+                    # decoded(name) is defined for every property: it never fails, and for GEO / CATEGORIES it gives the plain values
+                    try:
+                        d = comp.decoded(nm)
+                        if kind == "geo" and tuple(float(x) for x in d) != tuple(float(x) for x in spec["v"]):
+                            fails.append(Failure("C02.values", "decoded-differs/geo", f"{nm}: {d!r} vs {spec['v']!r}"))
+                        if kind == "cats" and [str(x) for x in d] != [str(x) for x in spec["v"]]:
+                            fails.append(Failure("C02.values", "decoded-differs/cats", f"{nm}: {d!r} vs {spec['v']!r}"))
+                    except Exception as e:  # noqa: BLE001
+                        fails.append(Failure("C02.values", f"decoded-raises/{kind}/" + exc_signature(e), f"{nm}: {e!r}"[:200]))
                 if kind == "period" and nm == "FREEBUSY" and len(vals) == 1:
                     try:
                         d = comp.decoded(nm)
